@@ -6,7 +6,17 @@ package sampling
 
 // A PRNG fills the whole buffer and does not fail (the keyed BLAKE2b XOF fails only after 2^32
 // output bytes of one key; the samplers treat an error as a sanity-check panic): ASSUMED.
+//
+// What is drawn: `draws` (a ghost variable) counts the bytes taken from generators so far, and
+// stream(k) is the k-th of them; a Read delivers the next len(p) bytes of that sequence.  A value
+// computed from the buffer is thereby a function of the generator output, which is how the
+// sampler contracts say where a sampled coefficient comes from (and that it is determined by it).
+//@ ghostvar draws
+//@ ghost stream(k) int
 //@ func PRNG.Read
 //@   trusted the generator fills p completely and returns no error
 //@   assigns p
+//@   gassigns draws
 //@   ensures n == len(p) && err == nil
+//@   ensures 0 <= old(draws) && draws == old(draws) + len(p)
+//@   ensures forall(k, 0, len(p), p[k] == stream(old(draws) + k))
